@@ -271,6 +271,10 @@ class Engine(
                     # slice that might exist, and save those for the new outer
                     # query, since putting those in a subquery would destroy
                     # the ordering.
+                    if not select.sort.columns_required <= select.columns:
+                        # The existing Sort uses columns an earlier Projection
+                        # removed, so it cannot move to the outer query.
+                        return self._project_sorted_select(operation, select)
                     subquery = select.reapply_skip(sort=None, slice=None)
                     return Select.apply_skip(
                         subquery,
@@ -287,6 +291,10 @@ class Engine(
                             # want to move the Projection inside the Chain, to
                             # make it easier to avoid subqueries in UNION [ALL]
                             # constructs later.
+                            if not select.sort.columns_required <= operation.columns:
+                                # The existing Sort needs columns this
+                                # Projection removes from the Chain operands.
+                                return self._project_sorted_select(operation, select)
                             return select.reapply_skip(
                                 skip_to=chain._finish_apply(operation.apply(lhs), operation.apply(rhs)),
                                 projection=None,
@@ -326,6 +334,16 @@ class Engine(
             case Identity():
                 return select
         raise NotImplementedError(f"Unsupported operation type {operation} for engine {self}.")
+
+    def _project_sorted_select(self, operation: Projection, select: Select) -> Select:
+        """Apply a projection that cannot be merged into a `Select` because its
+        sort needs columns that would no longer be available.
+        """
+        if not select.has_slice:
+            raise RelationalAlgebraError(
+                f"Applying projection {operation} to relation {select} will not preserve row order."
+            )
+        return Select.apply_skip(select, projection=operation)
 
     def append_binary(self, operation: BinaryOperation, lhs: Relation, rhs: Relation) -> Select:
         # Docstring inherited.
